@@ -9,3 +9,28 @@ Print Assumptions C20_fault_before_no_effect.
 Theorem C20_fault_after_has_effect : forall h run, faulty FAfter h run = (fst (run h), RErr EOther).
 Proof. exact fault_after_has_effect. Qed.
 Print Assumptions C20_fault_after_has_effect.
+
+(* ---- with faults at every scheduler-issued call (Proofs/SysProofs.v): the invariants of C04 / C06 are
+   proved for EVERY accepted trace, fault labels included ---- *)
+From GK.Proofs Require Import SysProofs.
+
+Theorem C20_no_double_or_cancelled_run_under_faults : forall tr s,
+  srun sys_init tr = Some s -> srun_ok sys_init tr -> c04_ok tr = true.
+Proof. exact c04_holds. Qed.
+Print Assumptions C20_no_double_or_cancelled_run_under_faults.
+
+Theorem C20_invariant_under_faults : forall s, reachable s -> SysInv s.
+Proof. exact reachable_inv. Qed.
+Print Assumptions C20_invariant_under_faults.
+
+(* what a driver that does NOT retry loses: mark-as-dispatched fails after taking effect, the driver calls Step
+   instead of Retry — the task stays dispatched and is never run. The property's premise (errors are retried)
+   is necessary. *)
+Theorem C20_retry_is_necessary :
+  match srun sys_init cex_lost_task with
+  | Some s => (map (fun t => (t_id t, t_state t)) (repo_of s), sy_pc s, sy_accepted s, sy_running s,
+               sy_results s, sy_starts s, hs_timer (sy_h s))
+  | None => ([], PIdle, [], [], [], [], timer_idle)
+  end = ([("a", Dispatched)], PSelect, [], [], [], [], timer_idle).
+Proof. exact lost_task_after_fault. Qed.
+Print Assumptions C20_retry_is_necessary.
